@@ -233,9 +233,6 @@ SingleMarkerConstraint = TypeVar(
 
 class SingleMarkerLike(BaseMarker, ABC, Generic[SingleMarkerConstraint]):
     def __init__(self, name: str, constraint: SingleMarkerConstraint) -> None:
-        from poetry.core.constraints.generic import (
-            parse_constraint as parse_generic_constraint,
-        )
         from poetry.core.constraints.generic import parse_extra_constraint
         from poetry.core.constraints.version import parse_marker_version_constraint
 
@@ -249,7 +246,8 @@ class SingleMarkerLike(BaseMarker, ABC, Generic[SingleMarkerConstraint]):
         elif name == "extra":
             self._parser = parse_extra_constraint
         else:
-            self._parser = parse_generic_constraint
+            # the value of the environment is a plain string, not a constraint expression
+            self._parser = Constraint
 
     @property
     def name(self) -> str:
